@@ -126,6 +126,22 @@ def z_scaled(seed, T=6):
     return 'scaled', eao.portfolio.Portfolio(a), pr, tg
 
 
+def z_scaled_orderbook(seed, T=6):
+    """a scaled order book whose LAST order has no step on the grid (its variable has no mapping row): the scale variable comes behind it"""
+    import pandas as pd
+    n1 = A.Node(NN('n1'))
+    tg = grid(T)
+    pr = prices_for(T, seed)
+    H = dt.timedelta(hours=1)
+    orders = {'start': [pd.Timestamp(START), pd.Timestamp(START + 2 * H), pd.Timestamp(START + 9 * H)],
+              'end': [pd.Timestamp(START + 3 * H), pd.Timestamp(START + 5 * H), pd.Timestamp(START + 12 * H)],
+              'capa': [1., -2., 3.], 'price': [2., 6., 1.]}
+    ob = A.OrderBook(NM('book'), n1, orders=orders)
+    a = [A.ScaledAsset(name=NM('book_scaled'), base_asset=ob, min_scale=0., max_scale=2., norm_scale=1., fix_costs=0.05),
+         A.SimpleContract(NM('market'), n1, price='p1', min_cap=-6, max_cap=6, extra_costs=0.25)]
+    return 'scaled_orderbook', eao.portfolio.Portfolio(a), pr, tg
+
+
 def z_structured(seed, T=6):
     n1, n2, ni = A.Node(NN('n1')), A.Node(NN('n2')), A.Node(NN('inner'))
     tg = grid(T)
@@ -249,7 +265,7 @@ def z_windows(seed, T=6):
     return 'windows', eao.portfolio.Portfolio(a), pr, tg
 
 
-LP_ZOO = [z_contracts, z_transport_storage, z_multi, z_scaled, z_structured, z_orderbook, z_coarse, z_coarse_window, z_periodic, z_periodic_duration,
+LP_ZOO = [z_contracts, z_transport_storage, z_multi, z_scaled, z_scaled_orderbook, z_structured, z_orderbook, z_coarse, z_coarse_window, z_periodic, z_periodic_duration,
           z_digit_names, z_windows]
 MIP_ZOO = [z_plant_fuel, z_chp, z_chp_minload, z_linked, z_storage_mip]
 ZOO = LP_ZOO + MIP_ZOO
